@@ -7,11 +7,16 @@
      "scan <lo> <hi> <prefix-hex|-> <suffix-hex|->"     prefix ++ [c] ++ suffix for every Unicode scalar
                                                         value lo <= c < hi (decimal; surrogates skipped)
    stdout: one line per string
-     "<hex> P:<v> I:<v> E:<v> B:<v> M:<v> O:<v> W:<6 letters> Y:<letter>"
+     "<hex> P:<v> I:<v> E:<v> B:<v> M:<v> O:<v> W:<6 letters> Y:<letter> T:<4 letters>[ WD:<pos>=<8 letters>,..]"
    v = ok|err|panic (validate_object_path, _interface, _errorname, _busname, _membername, ObjectPath::new;
    O:bad = Ok with a different string); W = header marshalling with the string as path, interface,
    member, error name, destination, sender (o = Ok and exactly the given names written, e = Err,
-   x = Ok but other names, p = anything else); Y = the string as an object path in a message body.
+   x = Ok but other names, p = anything else; each letter summarises 8 configurations = message type Call/Signal/
+   Reply/Error x (only the fields the type requires + the one under test | all six); m = they differ, then WD lists
+   the 8 letters); Y = the string as an object path in a message body (params::Base::ObjectPath);
+   T = ObjectPath::<String>::new, TryFrom<&str>, TryFrom<String>, new(&str)+to_owned, each followed by the typed
+   Marshal impl of the wrapper (e = constructor Err, o = Ok/same string/marshalled as that string, n = Ok but
+   marshal refuses, x = other).
    enum/scan print only lines where something is not err/e, then "total <n> nontrivial <k>". *)
 open Gen_model
 
@@ -52,17 +57,38 @@ let base = { dh_interface = Some (ascii "a.b"); dh_member = Some (ascii "m"); dh
 
 let canon w = List.sort compare (List.map (fun (c, s) -> (int_of_n c, List.map int_of_n s)) w)
 
-let wire k s =
-  let h = match k with
-    | 0 -> { base with dh_object = Some s }
-    | 1 -> { base with dh_interface = Some s }
-    | 2 -> { base with dh_member = Some s }
-    | 3 -> { base with dh_error_name = Some s }
-    | 4 -> { base with dh_destination = Some s }
-    | _ -> { base with dh_sender = Some s } in
+(* header positions: 0 path, 1 interface, 2 member, 3 error name, 4 destination, 5 sender.
+   configurations: message type (Call, Signal, Reply, Error: the name fields the type requires) x
+   (minimal = required fields + the one under test | full = all six) *)
+let required = [| [0; 2]; [0; 1; 2]; []; [3] |]
+let default_of k = match k with
+  | 0 -> ascii "/x" | 1 -> ascii "a.b" | 2 -> ascii "m" | 3 -> ascii "e.f" | 4 -> ascii "c.d" | _ -> ascii ":1.2"
+
+let wire1 k s typ full =
+  let present j = full || j = k || List.mem j required.(typ) in
+  let v j = if present j then Some (if j = k then s else default_of j) else None in
+  let h = { dh_object = v 0; dh_interface = v 1; dh_member = v 2; dh_error_name = v 3;
+            dh_destination = v 4; dh_sender = v 5 } in
   match marshal_header_names h [] with
   | Ok w -> if canon w = canon (names_of h) then 'o' else 'x'
   | Err -> 'e'
+  | _ -> 'p'
+
+(* (summary letter, detail): the letter common to all 8 configurations, or 'm' with the 8 letters *)
+let wire k s =
+  let d = String.init 8 (fun c -> wire1 k s (c / 2) (c mod 2 = 1)) in
+  if String.for_all (fun ch -> ch = d.[0]) d then (d.[0], None) else ('m', Some (Printf.sprintf "%d=%s" k d))
+
+(* the wrapper constructors followed by the typed Marshal impl:
+   e = constructor Err, o = Ok, same string, marshals to that string, n = Ok but marshal refuses, x = other *)
+let ctor_letter (f : n list -> n list outcome) (owned : bool) s =
+  match f s with
+  | Err -> 'e'
+  | Ok p ->
+      let m q = match marshal_objectpath_typed q with Ok w -> if w = s then 'o' else 'x' | Err -> 'n' | _ -> 'p' in
+      if p <> s then 'x'
+      else if owned then (let a = m p and b = m (objectpath_to_owned p) in if a = b then a else 'x')
+      else m p
   | _ -> 'p'
 
 let is_name_char c =
@@ -77,12 +103,20 @@ let eval (cps : int list) : bool * bool * string =
   and e = status (validate_errorname s) and b = status (validate_busname s)
   and m = status (validate_membername s) in
   let o = match objectpath_new s with Ok r -> if r = s then "ok" else "bad" | Err -> "err" | _ -> "panic" in
-  let w = String.init 6 (fun k -> wire k s) in
+  let ws = List.init 6 (fun k -> wire k s) in
+  let w = String.init 6 (fun k -> fst (List.nth ws k)) in
+  let wd = List.filter_map snd ws in
+  let t = String.init 4 (fun k -> match k with
+    | 0 -> ctor_letter objectpath_new false s
+    | 1 -> ctor_letter objectpath_try_from_str false s
+    | 2 -> ctor_letter objectpath_try_from_string false s
+    | _ -> ctor_letter objectpath_new true s) in
   let y = match marshal_objectpath s with Ok r -> if r = s then 'o' else 'x' | Err -> 'e' | _ -> 'p' in
-  let interesting = List.exists (fun v -> v <> "err") [p; i; e; b; m; o] || w <> "eeeeee" || y <> 'e' in
+  let interesting = List.exists (fun v -> v <> "err") [p; i; e; b; m; o] || w <> "eeeeee" || y <> 'e' || t <> "eeee" in
   let nontrivial = interesting || (List.exists is_sep cps && List.exists is_name_char cps) in
   (interesting, nontrivial,
-   Printf.sprintf "%s P:%s I:%s E:%s B:%s M:%s O:%s W:%s Y:%c" (hex_of_ints bytes) p i e b m o w y)
+   Printf.sprintf "%s P:%s I:%s E:%s B:%s M:%s O:%s W:%s Y:%c T:%s%s" (hex_of_ints bytes) p i e b m o w y t
+     (if wd = [] then "" else " WD:" ^ String.concat "," wd))
 
 let () =
   let out = Buffer.create 65536 in
